@@ -11,7 +11,7 @@ Theorem C04_tie : G = guards_of_gen /\ nothing_unsupported = true /\ rendezvous_
   (* every blocking channel operation without an alternative is a known one; goroutines start where the skeleton has threads *)
   bare_ops_ok = true /\ go_stmts_ok = true /\
   (* the functions the skeleton mirrors by hand have the bodies it was written against *)
-  shapes_ok_for ["handleSignals"; "handleCommands"; "channelHandlers.shutdown"; "shutdown"; "Kill"; "recoverFromPanic"; "handlePanic";
+  shapes_ok_for ["NewProgram"; "readInputs"; "WithoutCatchPanics"; "eventLoop:sequenceMsg"; "handleSignals"; "handleCommands"; "channelHandlers.shutdown"; "shutdown"; "Kill"; "recoverFromPanic"; "handlePanic";
                  "readLoop"; "waitForReadLoop"; "initCancelReader"; "Send"; "handleResize"; "listenForResize"; "checkResize";
                  "standardRenderer.start"; "standardRenderer.stop"; "standardRenderer.kill"; "standardRenderer.listen"]%string = true.
 Proof. vm_compute. repeat split. Qed.
